@@ -69,7 +69,8 @@ def abst(t):
                 inner = abst(term)
                 if inner[0] == 'lst':
                     return ('lst', tuple(elems) + inner[1], inner[2])
-                return ('bad', 'tail is neither a variable nor a list')
+                # a tail bound to a non-list ([a | $T] with $T = b): an improper list, as in Prolog; it is a value, not a defect
+                return ('lst', tuple(elems), inner)
             elems.append(abst(term))
             cur = nxt
     raise ValueError('abst: %r' % (t,))
@@ -175,7 +176,9 @@ def unify(m, a, b, sub):
         return sub
     if k == 'lst':
         va, vb = list_view(a, sub), list_view(b, sub)
-        if va is None or vb is None: return None
+        if va is None or vb is None:
+            # an improper list (a tail bound to a non-list) takes part: outside every claim, handled like an occurs-check pair
+            raise OccursCheck()
         (ea, ta), (eb, tb) = va, vb
         n = min(len(ea), len(eb))
         for x, y in zip(ea[:n], eb[:n]):
